@@ -214,6 +214,10 @@ def export_harness(L, fmt, joiner):
         s.max_steps = 50 * LONG["K"] + 5000
         fs = iostub.FS()
         iostub.install(L, fs)
+        if fmt != "wav":
+            # leftovers of an earlier session under the names the workers would use for their temporary wav files
+            for nm in ("long.%s.wav" % fmt, "longjoin.%s.wav" % fmt):
+                fs.files[nm] = iostub.WavEntry(b"\1\2" * 25, thr.SR, thr.SW, thr.CH)
         meta = dict(what="export", fmt=fmt, joiner=joiner)
         fails = []
         try:
@@ -251,6 +255,13 @@ def replay_export(c):
     s.script = [tuple(x) for x in c["schedule"]]
     fails = []
     try:
+        if c["fmt"] != "wav":
+            for nm in ("long.%s.wav" % c["fmt"], "longjoin.%s.wav" % c["fmt"]):
+                with _wave.open(nm, "wb") as f:
+                    f.setframerate(thr.SR)
+                    f.setsampwidth(thr.SW)
+                    f.setnchannels(thr.CH)
+                    f.writeframes(b"\1\2" * 25)
         try:
             names, dets = run_export(mods, s, data, c["fmt"], c["joiner"])
             want = export_expect(data, dets)
@@ -365,7 +376,7 @@ def run(rep):
         ex = explore(harness(L, cf["what"], cf["K"], cf["pre"], cf["to"], cf.get("sil0", False)), max_decisions=3000, path_wall_s=30)
         rep.add_exploration(hn, ex, bounds=cf)
         tok.handle_cex(rep, hn, ex, replay_fn)
-    rep.bounds["long streams"] = "a concrete, entirely active stream of %d windows of %d samples saved, joined and exported as raw and as wav (no pre-emption, no time-out)" % (LONG["K"], LONG["SPW"])
+    rep.bounds["long streams"] = "a concrete, entirely active stream of %d windows of %d samples saved, joined and exported as raw and as wav (no pre-emption, no time-out); for raw, stale files sit under the names of the temporary wav files" % (LONG["K"], LONG["SPW"])
     for fmt, joiner in (("raw", True), ("wav", False)) if rep.tier == "quick" else (("raw", True), ("wav", True), ("raw", False)):
         hn = "export[%s%s,%d frames]" % (fmt, ",joiner" if joiner else "", LONG["K"] * LONG["SPW"])
         ex = explore(export_harness(L, fmt, joiner), max_decisions=3000, path_wall_s=60)
